@@ -26,12 +26,27 @@ HERE = os.path.dirname(os.path.abspath(__file__))
 sys.path.insert(0, os.path.dirname(HERE))
 
 PRIMS = {"usize", "u8", "u16", "u32", "u64", "u128", "isize", "i8", "i16", "i32", "i64", "i128",
-         "f32", "f64", "bool", "char", "str", "String"}
+         "f32", "f64", "bool", "char", "str", "String",
+         # std types without parameters that are Send + Sync
+         "AtomicBool", "AtomicUsize", "AtomicIsize", "AtomicU8", "AtomicU16", "AtomicU32", "AtomicU64",
+         "AtomicI8", "AtomicI16", "AtomicI32", "AtomicI64", "Duration", "Instant", "Ordering", "PathBuf", "TypeId"}
 # std wrappers with a dedicated constructor in Model/AutoTraits.v : name -> (constructor, arity)
 WRAP = {"Vec": "TVec", "Box": "TBox", "Option": "TOption", "PhantomData": "TPhantom",
         "RefCell": "TRefCell", "Cell": "TCell", "UnsafeCell": "TCell", "Range": "TRange",
         "RangeInclusive": "TRange", "VecDeque": "TVec", "Rc": "TRc", "Arc": "TArc",
-        "Mutex": "TMutex", "NonNull": "TRawNN"}
+        "Mutex": "TMutex", "NonNull": "TRawNN",
+        # std interior-mutability / lazy-initialisation cells, with their std auto-trait rules:
+        #   OnceCell<T>: Send <-> T: Send, never Sync (as Cell);  RwLock<T> / OnceLock<T>: Send <-> T: Send,
+        #   Sync <-> T: Send + Sync
+        "OnceCell": "TCell", "RwLock": "TRwLock", "OnceLock": "TRwLock",
+        # owning collections: as their element type
+        "HashSet": "TVec", "BTreeSet": "TVec", "BinaryHeap": "TVec", "LinkedList": "TVec",
+        "Wrapping": "TBox", "Saturating": "TBox", "Reverse": "TBox", "ManuallyDrop": "TBox", "Pin": "TBox",
+        "MaybeUninit": "TBox"}
+# std maps: as the pair (key, value)
+WRAP2 = {"HashMap", "BTreeMap"}
+# names of this table that a crate declaration may shadow are looked up AFTER the crate's own
+# declarations (see Translator.ty), so e.g. matrices::views::reverse::Reverse stays a TApp
 
 
 # ------------------------------------------------------------------ lexer
@@ -835,6 +850,10 @@ class Translator:
             return self.ty(self.expand_alias(al, lts, args, d), d, depth + 1)
         if name in WRAP and len([x for x in args if x[0] != "const"]) == 1:
             return "%s (%s)" % (WRAP[name], self.ty(args[0], d, depth))
+        if name in WRAP2 and len([x for x in args if x[0] != "const"]) in (2, 3):
+            return "TVec (TTuple [%s; %s])" % (self.ty(args[0], d, depth), self.ty(args[1], d, depth))
+        if len(segs) >= 1 and name in PRIMS and not args and segs[0] in ("std", "core", "alloc"):
+            return "TPrim %s" % coq_str(name)
         self.unresolved.append("%s: %s" % (getattr(d, "full", getattr(d, "name", "?")), ast_text(a)))
         return "TOpaque %s" % coq_str(ast_text(a))
 
@@ -1017,6 +1036,22 @@ def generate(repo):
                      % (os.path.relpath(im.file, repo), im.line, coq_str(full), coq_str(im.mod),
                         "; ".join(coq_str(x) for x in im.tys), form(im.target, im),
                         "; ".join(form(x, im) for x in args), "; ".join(wh)))
+    w(";\n".join(items))
+    w("].")
+    w("")
+    w("(* every use of the sealing pattern: (parent module, trait, private inline module, supertrait) for each")
+    w("   trait that names a supertrait `m::S` where `parent::m` is a private inline module *)")
+    w("Definition seal_uses : list (str * str * str * str) := [")
+    items = []
+    for t in sorted(out["traits"], key=lambda t: ((t.mod + "::" if t.mod else "") + t.name, t.line)):
+        for b in t.supers:
+            h, _ = split_super(b)
+            if "::" in h:
+                m, sname = h.rsplit("::", 1)
+                if m.startswith("self::"):
+                    m = m[6:]
+                if (t.mod + "::" if t.mod else "") + m in private_inline:
+                    items.append("  (%s, %s, %s, %s)" % (coq_str(t.mod), coq_str(t.name), coq_str(m), coq_str(sname)))
     w(";\n".join(items))
     w("].")
     w("")
